@@ -18,6 +18,20 @@ for name in sorted(os.listdir(os.path.join(HERE, 'seeded'))):
     meta = json.load(open(os.path.join(HERE, 'seeded', name, 'meta.json')))
     props = list(dict.fromkeys([meta['property']] + meta.get('caught_by_checks', [])))
     jobs.append((name, os.path.join(HERE, 'seeded', name, 'patch.diff'), props))
+OWN = {
+    'm01_commit_before_flush': ['C05', 'C06'], 'm02_unlink_before_commit': ['C05', 'C04'], 'm03_no_sandbox_fsync': ['C06'],
+    'm04_no_repack_fsync': ['C06'], 'm05_no_session_refresh_in_fallback': ['C04'], 'm08_no_seek0_after_read_twice': ['C01', 'C02'],
+    'm10_estimate_no_restore': ['C10'], 'm11_keep_as_no': ['C10'], 'm12_delete_skips_duplicates_of_loose_only': ['C11'],
+    'm14_validate_no_size_check_uncompressed': ['C12'], 'm16_loose_file_not_closed': ['C18'], 'm17_lazyopener_not_closed': ['C18'],
+    'm18_backup_packs_before_index': ['C15'], 'm20_loose_published_when_exists_untrusted': ['C09'], 'm21_clean_no_session_refresh': ['C08'],
+    'm23_import_cache_boundary': ['C14'], 'r_D1_revert_fix': ['C06', 'C18'], 'r_D2_revert_fix': ['C02', 'C03', 'C09', 'C12', 'C13'],
+    'r_D3_revert_fix': ['C07'], 'r_D4_revert_fix': ['C08'], 'r_D5_revert_fix': ['C15'], 'r_D6_revert_fix': ['C14'],
+    'r_D7_revert_fix': ['C07'], 'r_D8_revert_fix': ['C11', 'C02'], 'r_D9_revert_fix': ['C06'],
+}
+for name in sorted(OWN):
+    path = os.path.join(HERE, 'mutants', name + '.diff')
+    if os.path.exists(path):
+        jobs.append(('own:' + name, path, OWN[name]))
 for name, patch, props in jobs:
     if not name.startswith(prefix):
         continue
